@@ -674,6 +674,99 @@ Section Proofs.
     open_tls13_orig aead_open gcm s t' maj' min' (fst (seal_tls13 s pad typ pt)) = Deliver typ pt (snd (seal_tls13 s pad typ pt)).
   Proof. intros. unfold open_tls13_orig. apply roundtrip_tls13; auto. Qed.
 
+
+  (* ================================================================ TLS 1.3 record padding (RFC 8446 5.4), receive side:
+     whatever verified inner plaintext  content || type || 0^pad  arrives - ANY number of zeros - exactly the content is delivered *)
+  Theorem tls13_strips_all_padding : forall gcm s typ maj min body pt ty pad,
+    aead_open (k_enc s) (nonce_xor s) (aad13 typ maj min (length body)) body = Some (pt ++ [ty] ++ repeat 0 pad) ->
+    length body = (length pt + 1 + pad + tagl)%nat ->
+    ty <> 0 -> (1 <= length pt)%nat -> nlen pt <= rn_TLS_1_3_MAX_PLAINTEXT_FRAGMENT_LEN ->
+    open_tls13 gcm s typ maj min body = Deliver ty pt (bump s).
+  Proof.
+    intros gcm s typ maj min body pt ty pad Ho Hlen Ht H1 Hmax.
+    unfold open_tls13, RecModel.open_tls13.
+    replace (if gcm then (length body <=? tagl)%nat else (length body <? tagl)%nat) with false
+      by (destruct gcm; symmetry; [apply Nat.leb_gt | apply Nat.ltb_ge]; lia).
+    rewrite Ho.
+    assert (length (pt ++ [ty] ++ repeat 0 pad) = S (length pt + pad)) as Hin
+      by (rewrite !app_length, repeat_length; cbn; lia).
+    rewrite Hin.
+    replace (S (length pt + pad) =? length body - tagl)%nat with true by (symmetry; apply Nat.eqb_eq; lia). cbn [negb].
+    rewrite scan_back_inner by (auto; lia).
+    replace (length pt =? 0)%nat with false by (symmetry; apply Nat.eqb_neq; lia).
+    replace (rn_TLS_1_3_MAX_PLAINTEXT_FRAGMENT_LEN <? N.of_nat (length pt)) with false by (symmetry; apply N.ltb_ge; exact Hmax).
+    f_equal.
+    - rewrite app_nth2 by lia. rewrite Nat.sub_diag. reflexivity.
+    - apply firstn_app_exact. reflexivity.
+  Qed.
+
+  (* an inner plaintext without any non-zero byte (no content type) is refused, whatever its length *)
+  Lemma scan_back_zeros : forall n k, (k <= n)%nat -> scan_back (repeat 0 (S n)) k = 0%nat.
+  Proof.
+    intros n. induction k; intros Hk; [reflexivity|].
+    cbn [scan_back]. rewrite nth_repeat_lt by lia. cbn. apply IHk. lia.
+  Qed.
+  Theorem tls13_all_zero_refused : forall gcm s typ maj min body n,
+    aead_open (k_enc s) (nonce_xor s) (aad13 typ maj min (length body)) body = Some (repeat 0 (S n)) ->
+    length body = (S n + tagl)%nat ->
+    open_tls13 gcm s typ maj min body = Fatal c_SSL_ALERT_UNEXPECTED_MESSAGE (bump s).
+  Proof.
+    intros gcm s typ maj min body n Ho Hlen.
+    unfold open_tls13, RecModel.open_tls13.
+    replace (if gcm then (length body <=? tagl)%nat else (length body <? tagl)%nat) with false
+      by (destruct gcm; symmetry; [apply Nat.leb_gt | apply Nat.ltb_ge]; lia).
+    rewrite Ho, repeat_length.
+    replace (S n =? length body - tagl)%nat with true by (symmetry; apply Nat.eqb_eq; lia). cbn [negb].
+    rewrite scan_back_zeros by lia. reflexivity.
+  Qed.
+
+  (* the whole path, header included: what seal_rec puts on the wire for a TLS 1.3 family, with ANY padding that fits the
+     record (|content| + 1 + pad + 16 <= 2^14 + 256), open_rec hands back as exactly (type, content) *)
+  Theorem roundtrip_rec_tls13 : forall f s (m : msg),
+    is13 f = true ->
+    (m_typ m = 21 \/ m_typ m = 22 \/ m_typ m = 23) ->
+    (1 <= length (m_pt m))%nat -> nlen (m_pt m) <= rn_TLS_1_3_MAX_PLAINTEXT_FRAGMENT_LEN ->
+    N.of_nat (length (m_pt m) + 1 + m_pad m + tagl) <= rn_TLS_1_3_MAX_CIPHERTEXT_LEN ->
+    open_rec f s (fst (seal_rec msz cbc_enc mac aead_seal f s m)) =
+      Deliver (m_typ m) (m_pt m) (snd (seal_rec msz cbc_enc mac aead_seal f s m)).
+  Proof.
+    intros f s m H13 Hty H1 Hmax Hfit.
+    assert (m_typ m <> 0) as Hnz by (destruct Hty as [-> | [-> | ->]]; discriminate).
+    assert (seal_rec msz cbc_enc mac aead_seal f s m =
+            ({| w_typ := 23; w_maj := 3; w_min := 3; w_body := fst (seal_tls13 s (m_pad m) (m_typ m) (m_pt m)) |},
+             snd (seal_tls13 s (m_pad m) (m_typ m) (m_pt m)))) as Hs
+      by (destruct f; try discriminate H13; reflexivity).
+    rewrite Hs. cbn [fst snd].
+    unfold open_rec, RecModel.open_rec. rewrite H13. unfold open13. cbn [w_typ w_maj w_min w_body].
+    assert (length (fst (seal_tls13 s (m_pad m) (m_typ m) (m_pt m))) = (length (m_pt m) + 1 + m_pad m + tagl)%nat) as Hl.
+    { unfold seal_tls13, RecModel.seal_tls13. cbn [fst]. rewrite Haead_len, !app_length, repeat_length. cbn. lia. }
+    unfold nlen. rewrite Hl.
+    replace (rn_TLS_1_3_MAX_CIPHERTEXT_LEN <? N.of_nat (length (m_pt m) + 1 + m_pad m + tagl)) with false
+      by (symmetry; apply N.ltb_ge; exact Hfit).
+    replace (N.of_nat (length (m_pt m) + 1 + m_pad m + tagl) =? 0) with false by (symmetry; apply N.eqb_neq; ubl; lia).
+    cbn [orb valid_type N.eqb Pos.eqb negb andb].
+    assert (forall g, RecModel.open_tls13 aead_open g s 23 3 3 (fst (seal_tls13 s (m_pad m) (m_typ m) (m_pt m))) =
+                      Deliver (m_typ m) (m_pt m) (snd (seal_tls13 s (m_pad m) (m_typ m) (m_pt m)))) as Hr
+      by (intros g; apply roundtrip_tls13; auto).
+    destruct f; try discriminate H13; apply Hr.
+  Qed.
+
+  (* the padding the sender computes for a block size never pushes the inner plaintext over 2^14 + 1, and pads to the block *)
+  Theorem tls13_pad_len_props : forall bs len, 1 <= bs -> len <= rn_TLS_1_3_MAX_PLAINTEXT_FRAGMENT_LEN ->
+    len + 1 + tls13_pad_len bs len <= rn_TLS_1_3_MAX_INNER_PLAINTEXT_LEN /\
+    ((len + 1 + tls13_pad_len bs len) mod bs = 0 \/ len + 1 + tls13_pad_len bs len = rn_TLS_1_3_MAX_INNER_PLAINTEXT_LEN).
+  Proof.
+    intros bs len Hbs Hlen. unfold tls13_pad_len, rn_TLS_1_3_MAX_INNER_PLAINTEXT_LEN, rn_TLS_1_3_MAX_PLAINTEXT_FRAGMENT_LEN in *.
+    set (b := (len + 1 + bs - 1) / bs * bs).
+    assert (len + 1 <= b) as Hb.
+    { unfold b. pose proof (N.div_mod (len + 1 + bs - 1) bs ltac:(lia)) as Hd.
+      pose proof (N.mod_lt (len + 1 + bs - 1) bs ltac:(lia)) as Hm. lia. }
+    destruct (16385 <? b) eqn:E.
+    - split; [lia|]. right. lia.
+    - apply N.ltb_ge in E. split; [lia|]. left.
+      replace (len + 1 + (b - 1 - len)) with b by lia. unfold b. apply N.mod_mul. lia.
+  Qed.
+
   (* ================================================================ no out-of-bounds read *)
   Hypothesis Hdec_len : forall k iv c, length (cbc_dec k iv c) = length c.
   Hypothesis Hopen_len : forall k n a c p, aead_open k n a c = Some p -> (length p + tagl = length c)%nat.
